@@ -4,8 +4,7 @@ package main
 // no XML parser is trusted to produce the abstract form the Coq model reads.
 
 import (
-	"crypto/rsa"
-	"crypto/tls"
+	"crypto"
 	"crypto/x509"
 	"encoding/base64"
 	"fmt"
@@ -293,7 +292,7 @@ var theCtx *Ctx
 
 // ---- keys and certificates: certificate number c certifies key number c ----
 
-var certNames = map[int]string{0: "rsa_a", 1: "rsa_b", 2: "rsa_c", 9: "rsa_1024"}
+var certNames = map[int]string{0: "rsa_a", 1: "rsa_b", 2: "rsa_c", 3: "ec_256", 9: "rsa_1024"}
 
 const (
 	spKeyName    = "rsa_3072"
@@ -307,22 +306,39 @@ func certB64(c int) string {
 	return "AAAA" // decodes, but is not a certificate
 }
 
-var signCtxCache = map[int]*dsig.SigningContext{}
+var signCtxCache = map[string]*dsig.SigningContext{}
 
+var signCount int
+
+// signingContext returns a signing context for certificate/key number c. The signature and
+// digest method rotate over everything the key type supports (the property quantifies over
+// "whatever the IdP signed with"): RSA-SHA1/256/512, ECDSA-SHA1/256/384/512.
 func signingContext(c int) *dsig.SigningContext {
-	if sc, ok := signCtxCache[c]; ok {
+	name := certNames[c]
+	signCount++
+	var method string
+	var signer crypto.Signer
+	if strings.HasPrefix(name, "ec_") {
+		method = []string{dsig.ECDSASHA256SignatureMethod, dsig.ECDSASHA1SignatureMethod, dsig.ECDSASHA384SignatureMethod, dsig.ECDSASHA512SignatureMethod}[signCount%4]
+		signer = fix.ECKey(name)
+	} else {
+		method = []string{dsig.RSASHA256SignatureMethod, dsig.RSASHA1SignatureMethod, dsig.RSASHA512SignatureMethod, dsig.RSASHA256SignatureMethod}[signCount%4]
+		signer = fix.RSAKey(name)
+	}
+	key := fmt.Sprintf("%d/%s", c, method)
+	if sc, ok := signCtxCache[key]; ok {
 		return sc
 	}
-	name := certNames[c]
-	var key *rsa.PrivateKey = fix.RSAKey(name)
 	var cert *x509.Certificate = fix.Cert(name)
-	ks := dsig.TLSCertKeyStore(tls.Certificate{Certificate: [][]byte{cert.Raw}, PrivateKey: key})
-	sc := dsig.NewDefaultSigningContext(ks)
-	sc.Canonicalizer = dsig.MakeC14N10ExclusiveCanonicalizerWithPrefixList("")
-	if err := sc.SetSignatureMethod(dsig.RSASHA256SignatureMethod); err != nil {
+	sc, err := dsig.NewSigningContext(signer, [][]byte{cert.Raw})
+	if err != nil {
 		panic(err)
 	}
-	signCtxCache[c] = sc
+	sc.Canonicalizer = dsig.MakeC14N10ExclusiveCanonicalizerWithPrefixList("")
+	if err := sc.SetSignatureMethod(method); err != nil {
+		panic(err)
+	}
+	signCtxCache[key] = sc
 	return sc
 }
 
